@@ -94,6 +94,8 @@ def check(model: Model, run: Run) -> None:
             inst = '%s: {%s}' % (short(fi.qualname), norm(value)[:50])
             if why is None:
                 run.ok(inst)
+            elif fi.name == '_generate_json' and _dead_fallback(model, folder, fi, value):
+                run.ok(inst, 'unreachable fallback: every kind of the representation table is handled by an earlier branch')
             elif (fi.qualname, norm(value)) in JSON_TRIAGED:
                 run.ok(inst, 'triaged: ' + JSON_TRIAGED[(fi.qualname, norm(value))])
             else:
@@ -133,9 +135,31 @@ def check(model: Model, run: Run) -> None:
     _r6_emitters(model, run, folder)
 
 
+def _dead_fallback(model: Model, folder: Folder, fi: FuncInfo, value: ast.AST) -> bool:
+    """the interpolation sits in the last `else` of the ladder over the rendering kind (first element of the
+    representation entry) and every kind that occurs in the table has its own `==` branch before it"""
+    from ..alpha import Loc
+
+    loc = Loc(model, fi)
+    kind_vars = [nm for nm, ds in loc.defs.items() if any(h == 'assign[0]' and isinstance(v, ast.Subscript) and (dotted(v.value) or '').endswith('representation') for v, h, _ in ds)]
+    if len(kind_vars) != 1 or fi.cls is None:
+        return False
+    rep = fi.cls.assigns.get('representation')
+    if not isinstance(rep, ast.Dict):
+        return False
+    kinds = set()
+    for v in rep.values:
+        if isinstance(v, ast.Tuple) and v.elts:
+            kinds.add(folder.fold(v.elts[0], fi.module, fi.cls))
+    excluded = set()
+    for t, pol in flat_guards(fi.node, value):
+        if not pol and isinstance(t, ast.Compare) and len(t.ops) == 1 and isinstance(t.ops[0], ast.Eq) and isinstance(t.left, ast.Name) and t.left.id == kind_vars[0]:
+            excluded.add(folder.fold(t.comparators[0], fi.module, fi.cls))
+    return bool(kinds) and kinds <= excluded
+
+
 # (function, normalised interpolated expression) -> reason it is safe
 JSON_TRIAGED: dict[tuple[str, str], str] = {
-    ('exabgp.bgp.message.update.attribute.collection.AttributeCollection._generate_json', 'presentation % str(attribute)'): 'unreachable fallback: every representation entry uses a handled kind (checked by C13.R3)',
     ('exabgp.bgp.message.update.nlri.mup.t1st.Type1SessionTransformedRoute.json', 'str(self.source_ip)'): 'the bytes alternative of source_ip is only the literal b\'\' (absent source address)',
 }
 TEXT_TRIAGED: dict[tuple[str, str], str] = {}
